@@ -108,8 +108,20 @@ func (v *Vue) evalSlot(ctx VueContext, node *html.Node, slotScope *SlotScope) ([
 				}
 				result = append(result, children...)
 			} else {
-				// Use the provided content as-is
-				result = append(result, slotContent.Nodes...)
+				// Plain children supplied as default slot content: evaluate them like a slot
+				// template, with the slot props in scope. Evaluation builds fresh nodes, so
+				// the same supplied content can fill several slots (or loop iterations)
+				// without the uses sharing - and re-linking - the same node objects.
+				ctx.stack.Push(nil)
+				defer ctx.stack.Pop()
+				for k, v := range slotProps {
+					ctx.stack.Set(k, v)
+				}
+				children, err := v.evaluate(ctx, slotContent.Nodes, 0)
+				if err != nil {
+					return nil, err
+				}
+				result = append(result, children...)
 			}
 
 			return result, nil
@@ -120,8 +132,9 @@ func (v *Vue) evalSlot(ctx VueContext, node *html.Node, slotScope *SlotScope) ([
 	if inheritedSlotScopeData, ok := ctx.stack.EnvMap()["__slotScope__"]; ok {
 		if inheritedSlotScope, ok := inheritedSlotScopeData.(*SlotScope); ok {
 			if slotContent := inheritedSlotScope.GetSlot(slotName); slotContent != nil {
-				// Use the inherited slot content directly (already parsed as DOM nodes)
-				return slotContent.Nodes, nil
+				// Evaluate the inherited slot content (parsed DOM nodes of the page); this
+				// also gives every use of the slot its own copy of the nodes.
+				return v.evaluate(ctx, slotContent.Nodes, 0)
 			}
 		}
 	}
